@@ -87,6 +87,24 @@ func (c *ctx) violate(key, what, detail string) {
 	}
 }
 
+// note records one execution that has no model line (an end-to-end run judged by direct
+// oracles only); it counts towards evaluations and the samples.
+func (c *ctx) note(nontrivial bool, desc string) {
+	c.n++
+	if !c.seen[desc] {
+		c.seen[desc] = true
+		if nontrivial {
+			c.nontrivial++
+		}
+	}
+	if len(c.sample) < 6 && (c.n%17 == 1) {
+		if len(desc) > 300 {
+			desc = desc[:300] + "..."
+		}
+		c.sample = append(c.sample, desc)
+	}
+}
+
 func hx(b []byte) string {
 	if len(b) == 0 {
 		return "-"
@@ -169,6 +187,8 @@ func main() {
 		fmt.Fprintf(os.Stderr, "unknown group %s (have %v)\n", os.Args[1], names)
 		os.Exit(2)
 	}
+	os.Unsetenv("TMUX")
+	os.Unsetenv("TMUX_PANE")
 	seed, _ := strconv.ParseInt(os.Args[2], 10, 64)
 	f, err := os.Create(os.Args[4])
 	if err != nil {
